@@ -19,6 +19,9 @@ inductive Tok where
   /-- annotation, invisible in `as_list()`: the tokens `ts` were produced by an element carrying results name `name`
       (`ParseResults(tokens, name, asList, modal)`, core.py:861-863) -/
   | nm (name : List Char) (modal asList : Bool) (ts : List Tok)
+  /-- hidden: the tokens `ts` were removed from the list (`del ret[:]` in FollowedBy.parseImpl core.py:4927-4933 and
+      Combine.postParse core.py:5897-5903) — invisible in `as_list()`, but the results names bound inside stay on the result -/
+  | hid (ts : List Tok)
   deriving Repr, Inhabited
 
 /-- exception classes (pyparsing/exceptions.py): `ParseException`, `ParseFatalException`,
